@@ -281,6 +281,37 @@ fn check_fragments(v: &Value, frags: &[Frag]) -> Result<u64, String> {
 			return Err(format!("get_fragment({}) is not the {}-th fragment of the traversal (a {:?})", i, i, frags[i].kind));
 		}
 	}
+	// the traversal itself, consumed in every way an iterator can be (a sample of documents: small ones)
+	if count <= 24 {
+		let want: Vec<(usize, usize)> = all
+			.iter()
+			.map(|(i, f)| {
+				(
+					*i,
+					match f {
+						FragmentRef::Value(x) => *x as *const Value as usize,
+						FragmentRef::Entry(x) => *x as *const json_syntax::object::Entry as usize,
+						FragmentRef::Key(x) => *x as *const json_syntax::object::Key as usize,
+					},
+				)
+			})
+			.collect();
+		crate::monitor::check_iter_by(
+			"traverse()",
+			&|| v.traverse(),
+			&|(i, f): (usize, FragmentRef)| {
+				(
+					i,
+					match f {
+						FragmentRef::Value(x) => x as *const Value as usize,
+						FragmentRef::Entry(x) => x as *const json_syntax::object::Entry as usize,
+						FragmentRef::Key(x) => x as *const json_syntax::object::Key as usize,
+					},
+				)
+			},
+			&want,
+		)?;
+	}
 	for k in [0usize, 1, 2, 17] {
 		match v.get_fragment(count + k) {
 			Err(e) if e == k => (),
